@@ -1176,234 +1176,200 @@ theorem tablet_dc_replicas_subset (rc : RCluster) (hist : List C15.Op) (hv : C15
   obtain ⟨hx1, _⟩ := List.mem_filter.mp hx
   exact List.mem_filterMap.mpr ⟨x, hx1, hr⟩
 
-/-! ## 5b. Metadata refreshes never leave a tablet with a truncated replica list (C15 maintenance, composed) -/
+/-! ## 5b. Histories of tablet feedback and metadata refreshes (C15's refresh model, composed)
+
+The refresh model and its theorems are C15's (`Model/TabletsRefresh.lean`, `Props/C15.lean` section "Lift" and the
+`ClusterState` level: `FlagsHonest`, `refresh_resolves_all`, `stateOk_run`, `refresh_lookups_current`,
+`cluster_lookup_refines`); here they are instantiated for the histories of the routing model (`RState.run`). -/
 
 section Refresh
-open ScyllaVerif.Tablets
+open ScyllaVerif.Tablets ScyllaVerif.TabletsRefresh
 
-/-- No tablet of the table still waits for an unknown replica. -/
-def AllResolved (tbl : Table) : Prop := ∀ t ∈ tbl.tablets, t.failed = none
+/-- No tablet of the table still waits for an unknown replica (C15's definition). -/
+abbrev AllResolved := C15.AllResolved
 
-/-- The flags of the tablet map are honest: a cleared `has_unknown_replicas` (of the whole map, of a table) means that
-no tablet (of the map, of the table) has an unresolved replica. This is what lets `perform_maintenance` skip work. -/
-structure FlagsHonest (inf : Info) : Prop where
-  tables : ∀ e ∈ inf.tables, C15.FlagInv e.2
-  whole : inf.hasUnknown = false → ∀ e ∈ inf.tables, AllResolved e.2
+/-- The two `has_unknown_replicas` flags are honest (C15's definition). -/
+abbrev FlagsHonest := C15.FlagsHonest
 
-private theorem mem_alSet' {κ β : Type} [DecidableEq κ] (k : κ) (v : β) (m : List (κ × β)) :
-    ∀ e ∈ alSet k v m, e = (k, v) ∨ e ∈ m := by
-  induction m with
-  | nil => intro e he; simp [alSet] at he; exact Or.inl he
-  | cons x m ih =>
-    obtain ⟨k', v'⟩ := x
-    intro e he
-    simp only [alSet] at he
-    split at he
-    · rcases List.mem_cons.mp he with rfl | h
-      · exact Or.inl rfl
-      · exact Or.inr (List.mem_cons_of_mem _ h)
-    · rcases List.mem_cons.mp he with rfl | h
-      · exact Or.inr List.mem_cons_self
-      · rcases ih e h with r | r
-        · exact Or.inl r
-        · exact Or.inr (List.mem_cons_of_mem _ r)
+/-- The routing model's history as a C15 `ClusterState` history. -/
+def toCOps (kss : List (String × Bool × List String)) (peers : List (Ring.Node × Nat)) (ops : List StateOp) : List C15.COp :=
+  .refresh (peers.map toPeer) kss :: ops.map (fun op => match op with
+    | .learn spec f l raw => C15.COp.learn spec.1 spec.2 f l raw
+    | .refresh ps => C15.COp.refresh (ps.map toPeer) kss)
 
-private theorem alGet_mem' {κ β : Type} [DecidableEq κ] (k : κ) (v : β) (m : List (κ × β)) (h : alGet k m = some v) :
-    (k, v) ∈ m := by
-  induction m with
-  | nil => simp [alGet] at h
-  | cons x m ih =>
-    obtain ⟨k', v'⟩ := x
-    simp only [alGet] at h
-    split at h
-    · rename_i hk
-      cases h; subst hk; exact List.mem_cons_self
-    · exact List.mem_cons_of_mem _ (ih h)
+/-- **`RState.run` is C15's `crun`** on the same history (so every C15 `ClusterState`-level theorem applies). -/
+theorem run_eq_crun (kss : List (String × Bool × List String)) (peers : List (Ring.Node × Nat)) (ops : List StateOp) :
+    (RState.init kss peers).run kss ops = C15.crun (toCOps kss peers ops) := by
+  have key : ∀ (ops : List StateOp) (st : CState),
+      RState.run kss st ops = (ops.map (fun op => match op with
+        | .learn spec f l raw => C15.COp.learn spec.1 spec.2 f l raw
+        | .refresh ps => C15.COp.refresh (ps.map toPeer) kss)).foldl C15.cstep st := by
+    intro ops
+    induction ops with
+    | nil => intro st; rfl
+    | cons op ops ih =>
+      intro st
+      simp only [RState.run, List.foldl_cons, List.map_cons]
+      have : RState.step kss st op = C15.cstep st (match op with
+          | .learn spec f l raw => C15.COp.learn spec.1 spec.2 f l raw
+          | .refresh ps => C15.COp.refresh (ps.map toPeer) kss) := by
+        cases op <;> rfl
+      rw [this]
+      exact ih _
+  simp only [toCOps, C15.crun, List.foldl_cons]
+  exact key ops _
 
-/-- `add_tablet` keeps old tablets or the new one, nothing else. -/
-private theorem addTablet_mem (tbl : Table) (new : Tablet) : ∀ t ∈ (tbl.addTablet new).1.tablets, t = new ∨ t ∈ tbl.tablets := by
-  intro t ht
-  unfold Table.addTablet at ht
-  cases h : addTabletList tbl.tablets new with
-  | none => rw [h] at ht; exact Or.inr ht
-  | some l =>
-    rw [h] at ht
-    simp only [] at ht
-    unfold addTabletList at h
-    simp only [] at h
-    split at h
-    · cases h
-      rcases List.mem_append.mp ht with hm | hm
-      · exact Or.inr (List.mem_of_mem_take hm)
-      · rcases List.mem_cons.mp hm with rfl | hm
-        · exact Or.inl rfl
-        · exact Or.inr (List.mem_of_mem_drop hm)
-    · cases h
-
-private theorem addTablet_flag (tbl : Table) (new : Tablet) :
-    (tbl.addTablet new).1.hasUnknown = (tbl.hasUnknown || new.failed.isSome) := by
-  unfold Table.addTablet
-  cases addTabletList tbl.tablets new <;> rfl
-
-private theorem flagInv_addTablet {tbl : Table} (h : C15.FlagInv tbl) (new : Tablet) : C15.FlagInv (tbl.addTablet new).1 := by
-  intro hf t ht
-  rw [addTablet_flag] at hf
-  simp only [Bool.or_eq_false_iff] at hf
-  rcases addTablet_mem tbl new t ht with rfl | hm
-  · cases hn : t.failed with
-    | none => rfl
-    | some r => rw [hn] at hf; simp at hf
-  · exact h hf.1 t hm
-
-private theorem flagInv_empty : C15.FlagInv Table.empty := by
-  intro _ t ht; simp [Table.empty] at ht
-
-/-- **Learning a tablet keeps the flags honest** (`TabletsInfo::add_tablet`, `TableTablets::add_tablet`: a tablet with an
-unknown replica raises both flags). -/
-theorem learn_keeps_flags_honest {inf : Info} (h : FlagsHonest inf) (spec : String × String) (t : Tablet) :
-    FlagsHonest (inf.addTablet spec t).1 := by
-  have hcur : C15.FlagInv ((alGet spec inf.tables).getD Table.empty) := by
-    cases hg : alGet spec inf.tables with
-    | none => exact flagInv_empty
-    | some c => exact h.tables _ (alGet_mem' _ _ _ hg)
-  have hshape : (inf.addTablet spec t).1 =
-      ⟨alSet spec (((alGet spec inf.tables).getD Table.empty).addTablet t).1 inf.tables,
-        inf.hasUnknown || t.failed.isSome⟩ := rfl
-  rw [hshape]
-  refine ⟨?_, ?_⟩
-  · intro e he
-    rcases mem_alSet' _ _ _ e he with rfl | hm
-    · exact flagInv_addTablet hcur t
-    · exact h.tables e hm
-  · intro hf e he
-    simp only [Bool.or_eq_false_iff] at hf
-    rcases mem_alSet' _ _ _ e he with rfl | hm
-    · intro u hu
-      rcases addTablet_mem _ t u hu with rfl | hm
-      · cases hn : u.failed with
-        | none => rfl
-        | some r => rw [hn] at hf; simp at hf
-      · cases hg : alGet spec inf.tables with
-        | none => rw [hg] at hm; simp [Table.empty] at hm
-        | some c =>
-          rw [hg] at hm
-          exact h.whole hf.1 _ (alGet_mem' _ _ _ hg) u hm
-    · exact h.whole hf.1 e hm
-
-/-- **After a refresh no tablet has a truncated replica list** (`TabletsInfo::perform_maintenance`, whatever the
-keyspaces, removed, current and re-created nodes): every tablet the map still holds has all its replicas resolved -
-the ones learnt with an unknown replica were resolved against the new node set or forgotten - also when the refresh
-removed and re-created nothing, because then `has_unknown_replicas` alone opens the gate. Both flags are cleared
-honestly. (The seeded change "the map-level flag is not raised" breaks `learn_keeps_flags_honest`, hence this.) -/
-theorem refresh_resolves_all {inf : Info} (h : FlagsHonest inf) (kss : List (String × Bool × List String))
-    (rm : List Nat) (ns rc : List (Nat × Tablets.Node)) :
-    (∀ e ∈ (inf.maintenance kss rm ns rc).tables, AllResolved e.2) ∧ FlagsHonest (inf.maintenance kss rm ns rc) := by
-  -- a table is "fine" if its own flag is honest and, when the map's flag is down, it has nothing unresolved
-  let Q : ((String × String) × Table) → Prop := fun e => C15.FlagInv e.2 ∧ (inf.hasUnknown = false → AllResolved e.2)
-  have hQe : ∀ k, Q (k, Table.empty) := fun _ => ⟨flagInv_empty, fun _ t ht => by simp [Table.empty] at ht⟩
-  have key : (∀ e ∈ (inf.maintenance kss rm ns rc).tables, AllResolved e.2) := by
-    unfold Info.maintenance
-    simp only []
-    have h1 : ∀ e ∈ inf.tables.filter (fun e =>
-        match alGet e.1.1 kss with
-        | none => false
-        | some (tabletBased, tables) => tabletBased && tables.contains e.1.2), Q e :=
-      fun e he => ⟨h.tables e (List.mem_filter.mp he).1, fun hf => h.whole hf e (List.mem_filter.mp he).1⟩
-    generalize inf.tables.filter _ = kept at h1
-    have inner : ∀ (ksn : String) (tbs : List String) (acc : List ((String × String) × Table)),
-        (∀ e ∈ acc, Q e) →
-        ∀ e ∈ tbs.foldl (fun acc tb =>
-          match alGet (ksn, tb) acc with
-          | some _ => acc
-          | none => acc ++ [((ksn, tb), Table.empty)]) acc, Q e := by
-      intro ksn tbs
-      induction tbs with
-      | nil => intro acc ha; exact ha
-      | cons tb tbs ih =>
-        intro acc ha
-        simp only [List.foldl_cons]
-        apply ih
-        split
-        · exact ha
-        · intro e he
-          rcases List.mem_append.mp he with hm | hm
-          · exact ha e hm
-          · simp only [List.mem_singleton] at hm
-            subst hm; exact hQe _
-    have outer : ∀ (kl : List (String × Bool × List String)) (acc : List ((String × String) × Table)),
-        (∀ e ∈ acc, Q e) →
-        ∀ e ∈ kl.foldl (fun acc ks =>
-          if ks.2.1 then ks.2.2.foldl (fun acc tb =>
-            match alGet (ks.1, tb) acc with
-            | some _ => acc
-            | none => acc ++ [((ks.1, tb), Table.empty)]) acc
-          else acc) acc, Q e := by
-      intro kl
-      induction kl with
-      | nil => intro acc ha; exact ha
-      | cons ks kl ih =>
-        intro acc ha
-        simp only [List.foldl_cons]
-        apply ih
-        split
-        · exact inner ks.1 ks.2.2 acc ha
-        · exact ha
-    have h2 := outer kss kept h1
-    generalize kss.foldl _ kept = withEmpty at h2
-    split
-    · -- the gate is open: every table is maintained; what `maintTablet` keeps is resolved
-      intro e he
-      obtain ⟨x, _hx, rfl⟩ := List.mem_map.mp he
-      intro t ht
-      simp only [] at ht
-      rw [(C15.maintenance_eq_filterMap x.2 (h2 x _hx).1 rm ns rc).1] at ht
-      obtain ⟨u, _, hu⟩ := List.mem_filterMap.mp ht
-      exact C15.maintTablet_resolved hu
-    · -- the gate is closed: nothing was removed or re-created and the map's flag is down - honestly
-      rename_i hgate
-      have hf : inf.hasUnknown = false := by
-        cases hu : inf.hasUnknown with
-        | false => rfl
-        | true => exact absurd (by simp [hu]) hgate
-      intro e he
-      exact (h2 e he).2 hf
-  refine ⟨key, ⟨?_, fun _ => key⟩⟩
-  intro e he _ t ht
-  exact key e he t ht
-
-/-- `TabletsInfo::new()`. -/
-theorem flags_honest_empty : FlagsHonest Info.empty :=
-  ⟨by intro e he; simp [Info.empty] at he, by intro _ e he; simp [Info.empty] at he⟩
-
-/-- **Along every history** of tablet feedback and metadata refreshes (any topologies, any tablets - also naming hosts
-that are not known yet) the flags stay honest, and right after a refresh every tablet of every table has all its
-replicas resolved: `tabletReplicas` then hands the policy the tablet's COMPLETE replica list, so
-`first_attempt_is_tablet_replica` speaks about all replicas the servers named (in particular the preferred-datacenter
-one that was learnt late). -/
+/-- **Along every history** of tablet feedback (also naming hosts that are not known yet) and metadata refreshes the
+two `has_unknown_replicas` flags stay honest (C15 `learn_keeps_flags_honest`, `refresh_resolves_all`). -/
 theorem history_flags_honest (kss : List (String × Bool × List String)) (peers : List (Ring.Node × Nat))
-    (ops : List StateOp) : FlagsHonest ((RState.init kss peers).run kss ops).tablets := by
-  have h0 : FlagsHonest (RState.init kss peers).tablets := (refresh_resolves_all flags_honest_empty _ _ _ _).2
-  have step : ∀ (st : RState) (op : StateOp), FlagsHonest st.tablets → FlagsHonest (st.step kss op).tablets := by
+    (ops : List StateOp) : FlagsHonest ((RState.init kss peers).run kss ops).info := by
+  have h0 : FlagsHonest (RState.init kss peers).info := (C15.refresh_resolves_all C15.flags_honest_empty _ _ _ _).2
+  have step : ∀ (st : RState) (op : StateOp), FlagsHonest st.info → FlagsHonest (st.step kss op).info := by
     intro st op hst
     cases op with
-    | learn spec first last raw => exact learn_keeps_flags_honest hst spec _
-    | refresh ps => exact (refresh_resolves_all hst _ _ _ _).2
-  have key : ∀ (ops : List StateOp) (st : RState), FlagsHonest st.tablets → FlagsHonest (st.run kss ops).tablets := by
+    | learn spec first last raw => exact C15.learn_keeps_flags_honest hst spec _
+    | refresh ps => exact (C15.refresh_resolves_all hst _ _ _ _).2
+  have key : ∀ (ops : List StateOp) (st : RState), FlagsHonest st.info → FlagsHonest (st.run kss ops).info := by
     intro ops
     induction ops with
     | nil => intro st h; exact h
     | cons op ops ih => intro st h; exact ih _ (step st op h)
   exact key ops _ h0
 
+/-- **Right after a refresh no tablet has a truncated replica list** - whatever came before, also when the refresh
+removed and re-created nothing (then `has_unknown_replicas` alone opens the maintenance gate; the seeded change "the
+map-level flag is not raised" breaks `learn_keeps_flags_honest`, hence this). -/
 theorem refresh_leaves_nothing_unresolved (kss : List (String × Bool × List String)) (peers : List (Ring.Node × Nat))
     (ops : List StateOp) (ps : List (Ring.Node × Nat)) :
-    ∀ e ∈ ((RState.init kss peers).run kss (ops ++ [.refresh ps])).tablets.tables, AllResolved e.2 := by
+    ∀ e ∈ ((RState.init kss peers).run kss (ops ++ [.refresh ps])).info.tables, AllResolved e.2 := by
   have h := history_flags_honest kss peers ops
   have e : (RState.init kss peers).run kss (ops ++ [.refresh ps]) =
       ((RState.init kss peers).run kss ops).step kss (.refresh ps) := by
     simp [RState.run, List.foldl_append]
   rw [e]
-  exact (refresh_resolves_all h _ _ _ _).1
+  exact (C15.refresh_resolves_all h _ _ _ _).1
+
+/-- **Which tablet, along a history** (C15 `cluster_lookup_refines` on `run_eq_crun`; closes the gap between
+`tablet_replicas_refine`, which speaks about one table's `C15.run`, and the tablet map the routing state carries): for
+every table of the map after ANY history, the tablet found for a token is the one the table's own projected history
+names - the latest learnt tablet covering it unless overlapped or discarded since - and the table's list is sorted and
+disjoint. -/
+theorem history_lookup_refines (kss : List (String × Bool × List String)) (hk : (kss.map (·.1)).Nodup)
+    (peers : List (Ring.Node × Nat)) (ops : List StateOp)
+    (hv : ∀ spec f l raw, StateOp.learn spec f l raw ∈ ops → f ≤ l)
+    (spec : String × String) (tbl : Table)
+    (h : alGet spec ((RState.init kss peers).run kss ops).info.tables = some tbl) (tok : Int) :
+    tabletForToken tbl.tablets tok =
+        C15.lookupSpec (C15.proj spec (C15.ctrace (toCOps kss peers ops) CState.init)) tok ∧
+      C15.Inv tbl.tablets := by
+  rw [run_eq_crun] at h
+  refine C15.cluster_lookup_refines _ ?_ ?_ spec tbl h tok
+  · intro ks tb f l raw hm
+    simp only [toCOps, List.mem_cons, reduceCtorEq, false_or, List.mem_map] at hm
+    obtain ⟨op, hop, he⟩ := hm
+    cases op with
+    | learn sp f' l' raw' =>
+      simp only [C15.COp.learn.injEq] at he
+      obtain ⟨_, _, rfl, rfl, _⟩ := he
+      exact hv sp _ _ raw' hop
+    | refresh ps => cases he
+  · intro ps kss' hm
+    simp only [toCOps, List.mem_cons, C15.COp.refresh.injEq, List.mem_map] at hm
+    rcases hm with ⟨_, rfl⟩ | ⟨op, _, he⟩
+    · exact hk
+    · cases op with
+      | learn sp f l raw => cases he
+      | refresh ps' => simp only [C15.COp.refresh.injEq] at he; rw [← he.2]; exact hk
+
+/-- **The replicas the policy is handed are the node objects the cluster state currently knows** (C15
+`refresh_lookups_current`): after ANY history, every replica of the tablet found for a token is registered under its
+host id in `known_nodes`, and every replica of the per-datacenter answer carries exactly that datacenter. -/
+theorem history_replicas_current (kss : List (String × Bool × List String)) (peers : List (Ring.Node × Nat))
+    (ops : List StateOp) (spec : String × String) (tbl : Table)
+    (hm : (spec, tbl) ∈ ((RState.init kss peers).run kss ops).info.tables) (tok : Int) :
+    (∀ reps, replicasForToken tbl.tablets tok = some reps →
+      ∀ p ∈ reps, alGet p.1.hostId (nodesOf ((RState.init kss peers).run kss ops).known) = some p.1) ∧
+    (∀ dc reps, dcReplicasForToken tbl.tablets tok dc = some reps →
+      ∀ p ∈ reps, alGet p.1.hostId (nodesOf ((RState.init kss peers).run kss ops).known) = some p.1 ∧ p.1.dc = some dc) := by
+  rw [run_eq_crun] at hm ⊢
+  exact C15.refresh_lookups_current _ spec tbl hm tok
+
+private theorem dcName_inj {a b : Nat} (h : dcName a = dcName b) : a = b := by
+  unfold dcName at h
+  have := congrArg String.toList h
+  simp only [String.toList_append] at this
+  exact Nat.repr_inj.mp (String.ext_iff.mpr (List.append_cancel_left this))
+
+private theorem lookup_mem' {xs : List Tablet} {tok : Int} {t : Tablet} (h : tabletForToken xs tok = some t) : t ∈ xs := by
+  unfold tabletForToken at h
+  simp only [] at h
+  split at h
+  · rename_i u hu
+    split at h
+    · cases h; exact List.mem_of_getElem? hu
+    · cases h
+  · cases h
+
+/-- The peers of the routing cluster ARE the nodes the cluster state knows: distinct host ids, and the node registered
+under a peer's host id carries that peer's datacenter ("stored node = peer node"). -/
+def PeersMatch (peers : List Ring.Node) (known : Known) : Prop :=
+  (peers.map (·.id)).Nodup ∧
+    ∀ n ∈ peers, ∃ kn, alGet n.id (nodesOf known) = some kn ∧ kn.dc = n.dc.map dcName
+
+/-- **Preferred datacenter on tablet tables, stated against the PEER node** (audit finding: without tying the tablet's
+stored node to the peer the datacenter claim was about the wrong object). For a routing cluster whose tablet map is
+the one a history of feedback and refreshes produced (`rc.tables` entry = the table of `RState.run`) and whose peers
+are the nodes that state knows (`PeersMatch`): every replica handed to the policy for datacenter `d` IS in datacenter
+`d` (the node the request is sent to, not the copy stored in the tablet), and is one of the tablet's replicas with the
+same shard. Built on C15 `refresh_lookups_current` and `stateOk_run` (per-datacenter view = restriction). -/
+theorem tablet_dc_replicas_in_dc (rc : RCluster) (kss : List (String × Bool × List String))
+    (peers0 : List (Ring.Node × Nat)) (ops : List StateOp) (spec : String × String) (tbl : Table)
+    (hm : (spec, tbl) ∈ ((RState.init kss peers0).run kss ops).info.tables)
+    (hp : PeersMatch rc.peers ((RState.init kss peers0).run kss ops).known) (tok : Int) (d : Nat) :
+    ∀ r ∈ tabletReplicas rc tbl.tablets tok (some d),
+      r.1.dc = some d ∧ r ∈ tabletReplicas rc tbl.tablets tok none := by
+  intro r hr
+  obtain ⟨_, hdcs⟩ := history_replicas_current kss peers0 ops spec tbl hm tok
+  simp only [tabletReplicas] at hr ⊢
+  obtain ⟨p, hpm, hres⟩ := List.mem_filterMap.mp hr
+  cases hl : tabletForToken tbl.tablets tok with
+  | none => simp [dcReplicasForToken, hl] at hpm
+  | some t =>
+    have hdr : dcReplicasForToken tbl.tablets tok (dcName d) = some (dcReplicas t (dcName d)) := by
+      simp [dcReplicasForToken, hl]
+    rw [hdr] at hpm
+    simp only [Option.getD_some] at hpm
+    obtain ⟨hcur, hpdc⟩ := hdcs (dcName d) _ hdr p hpm
+    -- the resolved node is the peer with the replica's host id
+    unfold resolve at hres
+    obtain ⟨n, hfind, rfl⟩ := Option.map_eq_some_iff.mp hres
+    have hn : n ∈ rc.peers := List.mem_of_find?_eq_some hfind
+    have hid : n.id = p.1.hostId := by
+      have := List.find?_some hfind
+      simpa using this
+    obtain ⟨kn, hkn, hkdc⟩ := hp.2 n hn
+    rw [hid, hcur] at hkn
+    cases hkn
+    constructor
+    · -- datacenter of the PEER
+      rw [hpdc] at hkdc
+      cases hnd : n.dc with
+      | none => rw [hnd] at hkdc; cases hkdc
+      | some d' =>
+        rw [hnd] at hkdc
+        simp only [Option.map_some, Option.some.injEq] at hkdc
+        rw [dcName_inj hkdc.symm]
+    · -- a replica of the tablet: the per-datacenter view is a restriction of the full list
+      have hdcok : C15.DcOk t := by
+        have hrun := run_eq_crun kss peers0 ops
+        have := (C15.stateOk_run (toCOps kss peers0 ops)).2 (spec, tbl) (by rw [← hrun]; exact hm) t (lookup_mem' hl)
+        exact this.2
+      have hall : p ∈ t.replicas.all := by
+        rw [hdcok (dcName d)] at hpm
+        exact (List.mem_filter.mp hpm).1
+      refine List.mem_filterMap.mpr ⟨p, ?_, ?_⟩
+      · simp [replicasForToken, hl, hall]
+      · unfold resolve; rw [hfind]; rfl
 
 -- non-vacuity: the late-replica shape. Nodes 1 (dc0) and 2 (dc1) are known; a tablet names node 4 (unknown) and node 2;
 -- a refresh then adds node 4 at the end of the peer list (nobody removed or re-created): the tablet is complete again.
@@ -1413,15 +1379,21 @@ private def n4 : Ring.Node := ⟨4, some 0, some 1⟩
 private def kssEx : List (String × Bool × List String) := [("k0", true, ["t0"])]
 private def stEx (ops : List StateOp) : RState := (RState.init kssEx [(n1, 0), (n2, 1)]).run kssEx ops
 private def repsEx (st : RState) : List (Nat × Nat) :=
-  ((alGet ("k0", "t0") st.tablets.tables).map (fun t => (replicasForToken t.tablets 50).getD [])).getD [] |>.map
+  ((alGet ("k0", "t0") st.info.tables).map (fun t => (replicasForToken t.tablets 50).getD [])).getD [] |>.map
     (fun r => (r.1.hostId, r.2))
+private def lateOps : List StateOp := [.learn ("k0", "t0") 1 100 [(4, 4), (2, 3)], .refresh [(n1, 0), (n2, 1), (n4, 2)]]
 example : repsEx (stEx [.learn ("k0", "t0") 1 100 [(4, 4), (2, 3)]]) = [(2, 3)] ∧
-    (stEx [.learn ("k0", "t0") 1 100 [(4, 4), (2, 3)]]).tablets.hasUnknown = true ∧
-    repsEx (stEx [.learn ("k0", "t0") 1 100 [(4, 4), (2, 3)], .refresh [(n1, 0), (n2, 1), (n4, 2)]]) = [(4, 4), (2, 3)] ∧
-    recreatedNodes (stEx []).known (refreshNodes (stEx []).known [(n1, 0), (n2, 1), (n4, 2)] 1) = [] ∧
-    removedIds (stEx []).known (refreshNodes (stEx []).known [(n1, 0), (n2, 1), (n4, 2)] 1) = [] ∧
+    (stEx [.learn ("k0", "t0") 1 100 [(4, 4), (2, 3)]]).info.hasUnknown = true ∧
+    repsEx (stEx lateOps) = [(4, 4), (2, 3)] ∧
+    recreatedNodes (stEx []).known (newTopology (stEx []).known (stEx []).gen ([(n1, 0), (n2, 1), (n4, 2)].map toPeer)).1 = [] ∧
+    removedNodes (stEx []).known (newTopology (stEx []).known (stEx []).gen ([(n1, 0), (n2, 1), (n4, 2)].map toPeer)).1 = [] ∧
     -- a refresh that does not bring the node: the tablet is forgotten, never served truncated
     repsEx (stEx [.learn ("k0", "t0") 1 100 [(4, 4), (2, 3)], .refresh [(n1, 0), (n2, 1)]]) = [] := by decide
+example : PeersMatch [n1, n2, n4] (stEx lateOps).known := by
+  refine ⟨by decide, ?_⟩
+  intro n hn
+  simp only [List.mem_cons, List.not_mem_nil, or_false] at hn
+  rcases hn with rfl | rfl | rfl <;> exact ⟨_, by decide, by decide⟩
 
 end Refresh
 
